@@ -118,11 +118,17 @@ def nearest (x : Q) (limit : Nat) : Except PanicKind (Option Approx) :=
       else
         pure (some (.inexact (R.addSubInt false left t) true))
 
-/-- `RBig::next_up` (`up = true`) / `RBig::next_down` -/
+/-- `RBig::next_up` (`up = true`) / `RBig::next_down`, including the early return
+    `if limit.is_one() && self.is_int() { return trunc ± Self::ONE }` (fix ef17af6: `fract ± limit^-2`
+    would be `±1`, which `farey_neighbors` does not accept); `trunc + ONE` is `impl_int_add`
+    (`R.addSubInt`), `trunc − ONE` is `impl_int_sub_rbig` (`R.intSub`) -/
 def nextUpDown (up : Bool) (x : Q) (limit : Nat) : Except PanicKind (Option Q) :=
   if limit = 0 then .error .divideByZero
   else do
     let (t, f) ← splitAtPoint x
+    if limit = 1 ∧ x.den = 1 then
+      pure (some (if up then R.addSubInt false Q.one t else R.intSub t Q.one))
+    else
     let target ←
       if x.den ≤ limit then
         (if up then R.add f ⟨1, limit * limit⟩ else R.sub f ⟨1, limit * limit⟩)
@@ -212,9 +218,9 @@ def powQ (b : Nat) (e : Int) : Q := if e ≥ 0 then ⟨(b : Int) ^ e.toNat, 1⟩
 def scaleQ (m : Int) (b : Nat) (e : Int) : Q :=
   if e ≥ 0 then ⟨m * (b : Int) ^ e.toNat, 1⟩ else ⟨m, b ^ (-e).toNat⟩
 
-/-- the ways in which the code at the pinned commit deviates from the required behaviour of
-    `simplest_from_float` (all `false` = required; all `true` = the code):
-    * `conjSimpler`: inclusive end points are compared with the defective `is_simpler_than`;
+/-- the ways in which the code in /repo (HEAD fa3b7b8) deviates from the required behaviour of
+    `simplest_from_float` (all `false` = required; all `true` = the code).  Each switch is one
+    line of `float/src/round.rs impl ErrorBounds for …` (re-checked against the source in round 5):
     * `uniformUlp`: the spacing below a power of the base is taken to be a full ulp
       (`ErrorBounds` uses `f.ulp()` for both sides);
     * `ceilHalf`: half an ulp is `⌈b/2⌉·b^(e-1)`, more than half for an odd base
@@ -222,20 +228,19 @@ def scaleQ (m : Int) (b : Nat) (e : Int) : Q :=
     * `oddIncl`: `HalfEven` includes both ties iff the stored significand is ODD
       (`f.repr.significand.bit(0)`) instead of the per-tie parity rule;
     * `panicUnlimited`: `ErrorBounds for Away/Up/Down` call `f.ulp()` also for precision 0, which
-      panics, instead of returning `(0, 0, true, true)` as the trait documents;
-    * `zeroEndpoint`: `simplest_in(negative, 0)` returns 0 (finding `simplest-in-zero-endpoint`);
-      reachable here only together with `uniformUlp` (precision 1, significand 1). -/
+      panics, instead of returning `(0, 0, true, true)` as the trait documents.
+    Two former switches are gone because /repo was repaired: `conjSimpler` (766946e:
+    `is_simpler_than` is the documented order — `Props/C18.is_simpler_than_lexicographic` about the
+    regenerated text) and `zeroEndpoint` (5fc5674: `simplest_in(negative, 0)`). -/
 structure Quirks where
-  conjSimpler : Bool
   uniformUlp : Bool
   ceilHalf : Bool
   oddIncl : Bool
   panicUnlimited : Bool
-  zeroEndpoint : Bool
   deriving Repr, DecidableEq
 
-def Quirks.none : Quirks := ⟨false, false, false, false, false, false⟩
-def Quirks.code : Quirks := ⟨true, true, true, true, true, true⟩
+def Quirks.none : Quirks := ⟨false, false, false, false⟩
+def Quirks.code : Quirks := ⟨true, true, true, true⟩
 
 /-- the set of real numbers that round to the float `± S·b^e` (`S` the `p`-digit significand of
     the magnitude) under a mode, as an interval of MAGNITUDES in units of `b^(e-1)/2`
@@ -267,14 +272,14 @@ def roundingSet (k : Quirks) (mode : RMode) (b p : Nat) (negative : Bool) (S : N
     else (c - halfBelow, c + halfAbove,
       decide ((if isPow then b ^ p else S) % 2 = 0), decide (S % 2 = 0))
 
-/-- `RBig::simplest_from_float` with deviation switches `k` (`Quirks.none`: REQUIRED behaviour —
-    the simplest fraction among those that round to the float `signif · b^exp` at precision `p`
-    under `mode`; `p = 0`: the number itself).  `simplerReq` / `simplerCode`: the documented
-    order and the regenerated `is_simpler_than`.  `none`: malformed input (more digits than the
-    precision). -/
-def simplestFromFBig (k : Quirks) (simplerReq simplerCode : Q → Q → Bool) (mode : RMode)
+/-- the body of `RBig::simplest_from_float` for a FINITE float, with deviation switches `k`
+    (`Quirks.none`: REQUIRED behaviour — the simplest fraction among those that round to the float
+    `signif · b^exp` at precision `p` under `mode`; `p = 0`, unlimited precision: the error bounds
+    are `(0, 0, true, true)` and the result is the number itself).  `simpler`: the order used for the
+    inclusive end points (the documented order `simplerSpec`; the driver also runs the regenerated
+    `is_simpler_than`).  `none`: malformed input (more digits than the precision). -/
+def simplestFromFBig (k : Quirks) (simpler : Q → Q → Bool) (mode : RMode)
     (b : Nat) (signif exp : Int) (p : Nat) : Except PanicKind (Option Q) :=
-  let simpler := if k.conjSimpler then simplerCode else simplerReq
   if signif = 0 then .ok (some Q.zero)
   else if p = 0 then
     if k.panicUnlimited ∧ (mode = .away ∨ mode = .up ∨ mode = .down) then
@@ -295,10 +300,22 @@ def simplestFromFBig (k : Quirks) (simplerReq simplerCode : Q → Q → Bool) (m
         ⟨q.num, q.den * 2⟩
       let lo ← reduce (mk loN)
       let hi ← reduce (mk hiN)
-      if k.zeroEndpoint ∧ negative ∧ lo.num = 0 then pure (some Q.zero) else
       match ← pickSimplest simpler lo hi inclLo inclHi with
       | none => pure none
       | some s => pure (some (mulSign s negative))
+
+/-- `Repr::is_infinite` (float/src/repr.rs): significand zero and exponent non-zero
+    (`+inf = (0, 1)`, `-inf = (0, -1)`) -/
+def fbigIsInfinite (signif exp : Int) : Bool := signif == 0 && exp != 0
+
+/-- **`RBig::simplest_from_float`** (rational/src/third_party/dashu_float.rs) on the float given
+    by its `Repr` `(signif, exp)` and the precision `p` of its context: `if f.repr().is_infinite()
+    { return None }`, then the finite body.  Outer `none` = malformed input, inner `none` = the
+    Rust `None`. -/
+def rbigSimplestFromFloat (k : Quirks) (simpler : Q → Q → Bool) (mode : RMode)
+    (b : Nat) (signif exp : Int) (p : Nat) : Except PanicKind (Option (Option Q)) :=
+  if fbigIsInfinite signif exp then .ok (some none)
+  else (simplestFromFBig k simpler mode b signif exp p).map (Option.map some)
 
 /-- the documented order of `RBig::is_simpler_than` / `RBig::simplest_in`: smaller denominator
     first, then smaller numerator magnitude, then positive before negative (lexicographic) -/
